@@ -783,6 +783,8 @@ def c_ops(case, ev, out, enc, kinds):
             return partial_trace(t, trace, reset)
         return ['(OTraceT %s %s %s %s)' % (cz(t), cz(enc.code(label)), c_tmode(trace, desc, enc), lib.cbool(reset))]
     if k == 'tnames_append':
+        if 'exc' in out:        # obj.trace / obj.trace[t].names could not be reached (name lookup goes through `index`): no effect
+            return []
         return ['(OPathAppend %s %s)' % (czl([vkey(enc.code('trace')), o[1], akey(enc.code('names'))]), cz(enc.code(o[2])))]
     if k == 'sub_setitem':
         return ['(OSubSetItem %s %s %s %s)' % (cz(enc.code(o[1])), cz(enc.code(o[2])), cz(o[3]), cz(val(o[4])))]
@@ -1075,6 +1077,9 @@ def oracle(case, obs):
     if obs.get('timeout'):
         bad('timeout', 'history did not finish')
         return fails
+    if 'views' not in obs:
+        bad('driver-crash', 'the implementation driver did not return an observation: %s' % str(obs)[:200])
+        return fails
     allowed = expected_shared_pairs(case)
     derived = {d[0]: d for d in obs['derived']}
     kinds = root_kinds(case)
@@ -1160,6 +1165,8 @@ def guard(case, obs):
 
 
 def nontrivial(case, obs):
+    if not isinstance(obs, dict) or 'outcomes' not in obs:
+        return False
     created = 0
     for ev, out in zip(case['events'], obs.get('outcomes', [])):
         if ev[0] != 'op':
@@ -1170,7 +1177,8 @@ def nontrivial(case, obs):
 
 
 def bucket(case, obs):
-    ks = sorted({d['kind'] + ('+alias' if d['alias'] is not None else '') + ('+tracer' if d['tracer'] else '') for d in case['classes']})
+    ks = sorted({('parsed-' if d.get('parsed') else '') + d['kind'] + ('+alias' if d['alias'] is not None else '') + ('+tracer' if d['tracer'] else '')
+                 for d in case['classes']})
     routes = sorted({ev[2] for ev in case['events'] if ev[0] == 'copy'})
     return ','.join(ks) + '/' + ','.join(routes)
 
@@ -1381,7 +1389,7 @@ def gen_op(rng, s, fresh_float, alias, tracer):
             if attr == 'names':
                 return ['lappend', attr, rng.choice(fv)] if tracer else ['lappend', attr, rng.choice(fv + ['NEWNAME'])]
             if attr == 'index':
-                return ['lreplace', 'index', list(s.allvars)]
+                return ['lreplace', 'index', list(s.allvars) + (['trace'] if tracer else [])]
             return ['lappend', attr, 'marker']
         if q < 0.76:
             attr = rng.choice(['check', 'endogenous'])
@@ -1474,7 +1482,7 @@ def finish(case):
 def gen(rng, tier):
     cases = []
     uniq = [0]
-    n = 3000 if tier == 'quick' else 16000
+    n = 2000 if tier == 'quick' else 16000
     flavours = ['model', 'parsed', 'alias', 'tracer', 'tracer', 'both', 'container', 'linker']
     # fixed corpus first: the known sharing situations
     for fl in ('tracer', 'both', 'model', 'parsed', 'linker', 'container', 'alias'):
